@@ -274,6 +274,18 @@ func c01Case(c *core.Ctx, p *dyn.PairOps, sh c01shape, r *core.Rand, caseID stri
 		mk(func(ci int) int { return []int{0, 2*length + 3, 1}[ci%3] })
 		mk(func(int) int { return -1 })
 		mk(func(ci int) int { return r.Range(0, length+2) })
+		mk(func(ci int) int { // nil channels next to channels longer than the buffer
+			if ci%3 == 0 {
+				return -1
+			}
+			return 2*length + 3
+		})
+		mk(func(ci int) int {
+			if ci%2 == 1 {
+				return -1
+			}
+			return length + 1 + ci
+		})
 		for _, v := range vs {
 			for i := range v {
 				if v[i] < -1 {
